@@ -86,8 +86,12 @@ package internal
 //   nResultStores nResultTargets resultStoreBeforeWait resultStoresFromCellOfPointeeType
 //   events(...) evarg(...) result panics
 
+// (C12: the user's expressions are evaluated exactly once, by the prologue, on the
+// goroutine that called the directive; generated closures that run on workers
+// read only the hoisted copies, so generated code adds no read of a caller's
+// variable from another goroutine.)
 //@ func role:flow-wrapper
-//@   ensures [C15,C13,C02,C10] exactly-the-directives-arguments-are-hoisted: hoistedExactlyTheArguments
+//@   ensures [C15,C13,C02,C10,C12] exactly-the-directives-arguments-are-hoisted: hoistedExactlyTheArguments
 //@   ensures [C02,C11,C13] one-job-per-task-and-predicate-of-the-directive: jobsMatchDirective
 //@   ensures [C02] one-result-store-per-results-argument: resultsMatchDirective
 //@   ensures [C03,C15] no-user-function-runs-on-the-calling-goroutine: noUserFunctionOnCaller
@@ -108,7 +112,7 @@ package internal
 //@   ensures [C04] no-escaping-panic: !panics
 
 //@ func role:parallel-wrapper
-//@   ensures [C15,C13,C02,C10] exactly-the-directives-arguments-are-hoisted: hoistedExactlyTheArguments
+//@   ensures [C15,C13,C02,C10,C12] exactly-the-directives-arguments-are-hoisted: hoistedExactlyTheArguments
 //@   ensures [C10,C13] one-job-per-task-slice-map-and-end-hook-of-the-directive: jobsMatchDirective
 //@   ensures [C03,C15] no-user-function-runs-on-the-calling-goroutine: noUserFunctionOnCaller
 //@   ensures [C15] no-generated-name-captures-an-identifier-of-a-user-expression: userExpressionsResolveOutsideTheWrapper
